@@ -22,6 +22,9 @@ pub struct OpenFlags {
     pub read: bool,
     pub write: bool,
     pub create_new: bool,
+    pub create: bool,
+    pub truncate: bool,
+    pub append: bool,
 }
 
 /// The file-system surface used by `rolling/directory.rs`.
@@ -36,6 +39,19 @@ pub trait VerifFs {
     fn sync_data(&mut self, handle: u64) -> io::Result<()>;
     fn close(&mut self, handle: u64);
     fn remove_file(&mut self, path: &Path) -> io::Result<()>;
+    /// Length of an open file (`File::metadata().len()`).
+    fn file_len(&mut self, _handle: u64) -> io::Result<u64> {
+        Err(io::Error::new(
+            io::ErrorKind::Unsupported,
+            "file_len is not supported by this backend",
+        ))
+    }
+    fn rename(&mut self, _from: &Path, _to: &Path) -> io::Result<()> {
+        Err(io::Error::new(
+            io::ErrorKind::Unsupported,
+            "rename is not supported by this backend",
+        ))
+    }
 }
 
 thread_local! {
@@ -101,6 +117,33 @@ pub mod fs {
                 File::Std(file) => file.sync_data(),
                 File::Sim(handle) => with_backend(|fs| fs.sync_data(*handle)).unwrap(),
             }
+        }
+
+        pub fn sync_all(&self) -> io::Result<()> {
+            match self {
+                File::Std(file) => file.sync_all(),
+                File::Sim(handle) => with_backend(|fs| fs.sync_data(*handle)).unwrap(),
+            }
+        }
+
+        pub fn metadata(&self) -> io::Result<Metadata> {
+            match self {
+                File::Std(file) => file.metadata().map(|m| Metadata { len: m.len() }),
+                File::Sim(handle) => with_backend(|fs| fs.file_len(*handle))
+                    .unwrap()
+                    .map(|len| Metadata { len }),
+            }
+        }
+    }
+
+    pub struct Metadata {
+        len: u64,
+    }
+
+    impl Metadata {
+        #[allow(clippy::len_without_is_empty)]
+        pub fn len(&self) -> u64 {
+            self.len
         }
     }
 
@@ -172,6 +215,21 @@ pub mod fs {
             self
         }
 
+        pub fn create(&mut self, create: bool) -> &mut Self {
+            self.flags.create = create;
+            self
+        }
+
+        pub fn truncate(&mut self, truncate: bool) -> &mut Self {
+            self.flags.truncate = truncate;
+            self
+        }
+
+        pub fn append(&mut self, append: bool) -> &mut Self {
+            self.flags.append = append;
+            self
+        }
+
         pub fn open<P: AsRef<Path>>(&self, path: P) -> io::Result<File> {
             let flags = self.flags;
             if let Some(res) = with_backend(|fs| fs.open(path.as_ref(), flags)) {
@@ -181,6 +239,9 @@ pub mod fs {
                 .read(flags.read)
                 .write(flags.write)
                 .create_new(flags.create_new)
+                .create(flags.create)
+                .truncate(flags.truncate)
+                .append(flags.append)
                 .open(path)
                 .map(File::Std)
         }
@@ -249,6 +310,13 @@ pub mod fs {
             return res;
         }
         std::fs::remove_file(path)
+    }
+
+    pub fn rename(from: &Path, to: &Path) -> io::Result<()> {
+        if let Some(res) = with_backend(|fs| fs.rename(from, to)) {
+            return res;
+        }
+        std::fs::rename(from, to)
     }
 }
 
